@@ -30,41 +30,6 @@ std::string selected_routine(const TableSpec& s) {
 #endif
 }
 
-TableSpec gen_pattern_spec(Chooser& ch) {
-  // order patterns of the property's quantifier, drawn so every dispatch row is hit
-  int nd = ch.range(1, 9);
-  int pat = (int)ch.draw(0, 9);
-  std::vector<unsigned> orders;
-  if (pat <= 1) orders.assign(nd, 2);
-  else if (pat <= 3) orders.assign(nd, 3);
-  else if (pat == 4) { unsigned k = (unsigned)ch.draw(0, 5); orders.assign(nd, k); }
-  else if (pat == 5) { orders = {2, 2, 2, 3, 2, 2}; nd = 6; }
-  else if (pat == 6) { orders = {2, 2, 2, 5, 2, 2}; nd = 6; }
-  else { for (int d = 0; d < nd; d++) orders.push_back((unsigned)ch.draw(0, nd >= 7 ? 2 : (nd >= 5 ? 3 : 5))); }
-  // keep the block size manageable
-  uint64_t terms = 1;
-  for (auto& o : orders) { if (terms * (o + 1) > 60000) o = 1; terms *= (o + 1); }
-  TableSpec s;
-  KnotOpts ko; ko.extra_max = nd >= 6 ? 1 : (nd >= 4 ? 3 : 8);
-  std::string kc;
-  for (int d = 0; d < nd; d++) {
-    DimSpec ds; ds.order = orders[d];
-    std::string c; ds.knots = gen_knots(ch, ds.order, ko, &c);
-    if (d) kc += "|"; kc += c;
-    ds.ext_lo = ds.knots[ds.order]; ds.ext_hi = ds.knots[ds.knots.size() - ds.order - 1];
-    s.dims.push_back(ds);
-  }
-  for (int guard = 0; s.ncoeff() > 300000 && guard < 1000; guard++) {
-    size_t big = 0;
-    for (size_t d = 1; d < s.dims.size(); d++) if (s.dims[d].nfun() > s.dims[big].nfun()) big = d;
-    if (s.dims[big].knots.size() <= 2 * s.dims[big].order + 2) break;
-    s.dims[big].knots.pop_back();
-  }
-  s.knot_class = kc;
-  gen_coeffs(ch, s, ch.coin(1, 6) ? 0 : 2);
-  return s;
-}
-
 template <class Float>
 std::string compare_paths(const Table& t, const TableSpec& s, const double* x, const int* c, int mask, const unsigned* dv, Stats* st) {
   size_t nd = s.ndim();
